@@ -67,7 +67,7 @@ Definition check_build (c : build_case) : list N :=
   let e_patch :=
       if bc_impl c =? 0 then
         (if str_eqb (effective_http_method schema_structs (oracle_of (bc_oracle c)) schema_global_sid (bc_sections c)) (bc_http_method c)
-         then [] else [1])
+         then [] else [2])
         ++ (if str_eqb (trim_space (bc_bootstrap c)) (bootstrap_value schema_structs schema_global_sid (bc_sections c)) then [] else [1])
         ++ (match bootstrap_value schema_structs schema_global_sid (bc_sections c) with
             | [] => [] | v => if oracle_of (bc_oracle c) 7 v then [] else [2] end)
